@@ -1,6 +1,6 @@
 (* C04 -- the theorems about the ballotbox model, instantiated with the constants regenerated from the Go source. *)
 From Coq Require Import ZArith List Bool String Lia.
-From MV Require Import C04.Model C04.PLib C04.POwn C04.PSound C04.PStep.
+From MV Require Import C04.Model C04.PLib C04.POwn C04.PSound C04.PStep C04.PThresh.
 From MV Require Gen.C04.
 Import ListNotations.
 Open Scope Z_scope.
@@ -87,6 +87,14 @@ Proof.
   intros IN EM K. destruct (emitted_ok e ops v IN EM) as [s [S [_ [V _]]]].
   destruct (valid_recount v s V K) as [q [th [A B]]]. exists s, q, th. auto.
 Qed.
+
+Lemma emitted_threshold e ops v : emitted e ops v -> en_th e <= v_th v.
+Proof.
+  intros [x [X V]]. eapply (run_th pfx e ops box_init (tinv_init e)); eauto.
+Qed.
+
+Lemma last_point_guarded e b o : last_guarded b (fst (step pfx e b o)).
+Proof. apply step_last. Qed.
 
 (* ---------------------------------------------------------------- non-vacuity: a concrete history *)
 
